@@ -431,6 +431,14 @@ func c15R4(p *core.Program, r *core.Report) {
 				if sel, ok := ast.Unparen(y.X).(*ast.SelectorExpr); ok && sel.Sel.Name == "Walk" {
 					loop, body, in, x = y, y.Body, pn, core.VarOf(info, y.Key)
 				}
+				// the nodes collected first, in Walk's order, then visited: `refs := slices.Collect(t.Walk); for _, x := range refs`
+				if seq, _ := core.Resolve(info, pn.Body, y.X); seq != nil && y.Value != nil {
+					if c := core.AsCall(info, seq, "slices.Collect"); c != nil && len(c.Args) == 1 {
+						if sel, ok := ast.Unparen(c.Args[0]).(*ast.SelectorExpr); ok && sel.Sel.Name == "Walk" {
+							loop, body, in, x = y, y.Body, pn, core.VarOf(info, y.Value)
+						}
+					}
+				}
 			case *ast.CallExpr:
 				if core.CalleeName(info, y) == core.GM("pkg/types", "*TypeRef", "Walk") && len(y.Args) == 1 {
 					if lit, ok := ast.Unparen(y.Args[0]).(*ast.FuncLit); ok {
